@@ -203,7 +203,11 @@ func (s *BitmapServer) handle(w http.ResponseWriter, r *http.Request) {
 	}
 	s.cond.Broadcast()
 	s.mu.Unlock()
-	if delay > 0 {
+	faulty := false
+	if n := len(s.bm.Faults); n > 0 {
+		faulty = s.bm.Faults[int((req.Start/1800)%int64(n)+int64(n))%n] != ""
+	}
+	if delay > 0 && !faulty { // a slice that fails does so at once: it can overtake slices that are being answered
 		time.Sleep(delay)
 	}
 	if n := len(s.bm.Faults); n > 0 {
